@@ -482,6 +482,8 @@ func mgmtExec(t *testing.T, w *traceWriter, conf mgConf, next func(e int) *mgCmd
 						base = "multicast/v=9"
 					}
 					args.Strategy = &mgmtdef.Strategy{Name: nm("/localhost/nfd/strategy/" + base)}
+				case "trailing": // an existing strategy and version followed by one component too many
+					args.Strategy = &mgmtdef.Strategy{Name: nm("/localhost/nfd/strategy/" + map[bool]string{true: "multicast", false: "best-route"}[e%2 == 0] + "/v=1/extra")}
 				case "alien":
 					args.Strategy = &mgmtdef.Strategy{Name: nm("/example/strategy/" + g.StratName)}
 				case "empty":
@@ -674,7 +676,7 @@ func mgRandom(rng *rand.Rand) *mgCmd {
 		}
 		if g.Mod == "strategy-choice" && g.Verb == "set" {
 			g.StratName = pickS("multicast", "best-route")
-			g.Strat = pickS("ok", "ok", "ok", "ok", "bare", "unknown", "badver", "alien", "empty", "")
+			g.Strat = pickS("ok", "ok", "ok", "ok", "bare", "unknown", "badver", "alien", "empty", "", "trailing")
 			if g.Strat == "ok" {
 				g.StratSuffix = pickS("", "", "/v=1")
 			} else {
@@ -794,6 +796,12 @@ func mgMatrix() []*mgCmd {
 			g2.FaceRole = pair[1]
 			out = append(out, g1, g2)
 		}
+	}
+	// a strategy name with a component too many, for the root: were it stored, the next Interest anywhere would meet a strategy nobody has
+	{
+		g := base("strategy-choice", "set")
+		g.Name, g.Strat, g.StratName, g.StratBase = "/", "trailing", "", "x"
+		out = append(out, g, base("rib", "register"), base("cs", "config"))
 	}
 	// face properties: a persistency the face can have (alone: applied; next to a refused field: nothing applied), one it cannot have,
 	// local fields / congestion marking switched on and off through Flags + Mask
